@@ -831,8 +831,10 @@ def check_compile_tr(chk, F):
     jobs += [(p, "desc:" + k) for p in small for k in ("Wsh", "Sh", "ShWsh", "Bare", "Tr")]
     jobs += [(p, md) for p in [("or", [A, ("or", [B, C])])] + ([] if quick else [("or", [("and", [A, B]), ("and", [C, ("older", 5)])])])
              for md in ("compile_tr_native", "compile_tr_private_experimental")]
+    # a branch no leaf compilation exists for must be an error in every taproot compiler (cheap: refused at once)
+    jobs += [(("or", [A, ("T",)]), md) for md in ("compile_tr_native", "compile_tr_private_experimental")]
     if not quick:
-        jobs += [(p, md) for p in compile_tr_family("quick")[1:] for md in ("compile_tr_native", "compile_tr_private_experimental")]
+        jobs += [(p, md) for p in compile_tr_family("quick")[1:-1] for md in ("compile_tr_native", "compile_tr_private_experimental")]
     with mp.Pool(min(16, os.cpu_count() or 4)) as pool:
         res = pool.map(_compile_tr_work, jobs, chunksize=1)
     n_ok = 0
@@ -869,3 +871,7 @@ def run(chk):
         chk.guard("R08.10", "compile-tr", check_compile_tr, chk, F)
     from . import ctors
     chk.guard("R08.11", "typed-constructors", ctors.check_typed_constructors, chk, F, "R08.11")
+    # the compiler keeps a candidate only if Ctx::check_local_validity accepts it: that filter must apply all of the
+    # context's checks (rule shared with C07, whose lift guard reads the same function)
+    from . import c07
+    chk.guard("R08.12", "candidate-filter", c07.check_local_validity_table, chk, F, "R08.12")
